@@ -76,7 +76,9 @@ def _short(x, n=160):
 
 
 # ------------------------------------------------------------------ C07: every shape compiles
-def rule_compiles(ctx: Ctx, rid="C07.SHAPE-COMPILES", strict=True, layouts=None):
+def rule_compiles(ctx: Ctx, rid="C07.SHAPE-COMPILES", strict=True, layouts=None, text_only=False):
+    """text_only (C14): only the validity of the generated TEXT is judged; a shape whose compilation raises before any text
+    exists fails in the evaluator and in the stand-alone module alike."""
     """strict: C07/C14 own 'every shape compiles'.  Other properties only need enough shapes to
     decide their own rules: shapes that do not compile are skipped there (and counted)."""
     if not strict:
@@ -100,6 +102,8 @@ def rule_compiles(ctx: Ctx, rid="C07.SHAPE-COMPILES", strict=True, layouts=None)
             ctx.rep.bad("C07.GRAMMAR-ACCEPTS", f"language/grammar.py:ExperimentParser <- {o.prog.label}",
                         "a sentence of the documented grammar is rejected by the LALR table built from the extracted "
                         "productions", witness=" ".join(t.type for t in PL.prog_tokens(o.prog)), text=o.prog.label)
+        elif o.status == "raises" and text_only:
+            continue
         elif o.status == "raises":
             ctx.rep.bad(rid, con, f"compiling this grammatical shape raises inside the pipeline: {o.error}",
                         witness=" ".join(t.type for t in PL.prog_tokens(o.prog)), text=o.error.split(":")[0] + o.prog.label)
@@ -311,8 +315,8 @@ ALLOWED_COERCIONS = {
 SAFE_RENDER = {
     "str": {"repr", "ascii"},
     "ident": {"str", "repr", "ascii"},
-    "int": {"str", "repr", "ascii"},
-    "float": {"str", "repr", "ascii"},
+    "int": {"str", "repr", "ascii", "json"},
+    "float": {"str", "repr", "ascii", "json"},
 }
 
 
@@ -357,7 +361,7 @@ def rule_literal_terms(ctx: Ctx, rid="C05.LITERAL-VALUES"):
                         text=f"{o.prog.label}|{_short(alien[0], 60)}|{_short(twin, 60)}", facts={"generated": o.text})
 
 
-def rule_coercions(ctx: Ctx, rid="C05.NO-LOSSY-UNION", fields=None, skip_validators_on=()):
+def rule_coercions(ctx: Ctx, rid="C05.NO-LOSSY-UNION", fields=None, skip_validators_on=(), skip_fields=()):
     seen = {}
     for o in ctx.outcomes():
         for what, where, fsite, srcsym in o.interp.pyd_events:
@@ -397,7 +401,7 @@ def rule_coercions(ctx: Ctx, rid="C05.NO-LOSSY-UNION", fields=None, skip_validat
         con = f"data_structures/syntax_tree.py:{where.split(':')[-1]}"
         if con in listed or (fname, what) in ALLOWED_COERCIONS:
             continue
-        if fields is not None and fname not in fields:
+        if (fields is not None and fname not in fields) or fname in skip_fields:
             continue
         listed.add(con)
         ctx.rep.bad(rid, con, f"the model changes the literal on its way into the AST: {what} applied to {srcsym} (shape: {label})",
@@ -405,7 +409,7 @@ def rule_coercions(ctx: Ctx, rid="C05.NO-LOSSY-UNION", fields=None, skip_validat
     # validators that rewrite values
     for o in ctx.outcomes():
         for what, where, fsite, srcsym in o.interp.pyd_events:
-            if what == "validator-rewrite" and not any(f in where.split(".")[-1].split("/") for f in skip_validators_on) and (fields is None or any(where.endswith("." + f) or f in where.split(".")[-1].split("/") for f in fields)):
+            if what == "validator-rewrite" and not any(f in where.split(".")[-1].split("/") for f in tuple(skip_validators_on) + tuple(skip_fields)) and (fields is None or any(where.endswith("." + f) or f in where.split(".")[-1].split("/") for f in fields)):
                 k = ("validator", where)
                 if k not in seen:
                     seen[k] = 1
@@ -418,13 +422,18 @@ def rule_coercions(ctx: Ctx, rid="C05.NO-LOSSY-UNION", fields=None, skip_validat
         ctx.rep.ok(rid, "data_structures/syntax_tree.py", f"no coercion, Config option or validator alters the fields {sorted(fields)}")
 
 
-def rule_renderers(ctx: Ctx, rid="C05.TERM-RENDER", kinds=("str", "int", "float", "ident"), taint_only=False, extra_safe=()):
+def rule_renderers(ctx: Ctx, rid="C05.TERM-RENDER", kinds=("str", "int", "float", "ident"), taint_only=False, extra_safe=(),
+                   only_tags=None, skip_tags=()):
+    """only_tags / skip_tags select holes by the role tag of their symbol (w = weight, g = group literal, salt, ...)."""
     """Every opaque value enters the generated text through a value-exact renderer."""
     seen = {}
     for o in ctx.outcomes():
         for h in o.holes():
             k = h.sym.kind
             if k not in kinds:
+                continue
+            tag = h.sym.src.split(":")[-1].rstrip("0123456789")
+            if (only_tags is not None and tag not in only_tags) or tag in skip_tags:
                 continue
             key = (k, h.render, h.origin)
             if key not in seen:
@@ -443,7 +452,7 @@ def rule_renderers(ctx: Ctx, rid="C05.TERM-RENDER", kinds=("str", "int", "float"
                         "backslashes or code in the literal become part of the program text"
                         if k == "str" else f"{k} value rendered through {how}", site=origin,
                         text=f"{k} via {render} at {_stmt_text(ctx, origin)}", witness=o.prog.label)
-    ctx.rep.floor("distinct (kind, renderer, site) hole classes", n, 4 if "ident" in kinds else 2)
+    ctx.rep.floor("distinct (kind, renderer, site) hole classes", n, 4 if "ident" in kinds else (1 if only_tags else 2))
     if any(h.sym.kind == "rawtoken" for o in ctx.outcomes() for h in o.holes()):
         ctx.rep.bad(rid, f"{GEN}:PythonCodeGen", "raw (unconverted) token text reaches the generated source", text="rawtoken")
 
@@ -568,7 +577,7 @@ def rule_string_surface(ctx: Ctx, rid="C13.TAINT-COVERAGE"):
                     bad = f"compiling a sentence that uses this production raises: {o.error}"
                     continue
                 for h in o.holes():
-                    if h.sym.kind in ("str", "rawtoken") and h.render not in SAFE_RENDER["str"]:
+                    if h.sym.kind in ("str", "rawtoken") and h.render not in SAFE_RENDER["str"] | {"json"}:
                         bad = (f"the string token of this production reaches the generated source through "
                                f"{'bare interpolation' if h.render == 'str' else h.render} at {h.origin}")
                 if o.syntax_error and not bad:
